@@ -27,7 +27,7 @@ type c08 struct{}
 func (c08) ID() string    { return "C08" }
 func (c08) Level() string { return "exploration" }
 func (c08) Rule() string {
-	return "cases = (CNF problem, certificate, entry point): problems from T2 (<=2 clauses, dirty clauses included) and S3 (<=3 clauses); certificates = every sequence of <=2 lines (3 thorough) over the clause alphabet of the problem's variables including the empty clause, plus comment and blank lines; every genuine solver certificate of the conflict-rich seeds and their neighbours, verbatim and with one literal dropped or flipped at every position; entry points Unsat(reader) and UnsatChan; UnsatSubset on the C07 inputs. Oracle: valid => every line is implied (truth table), so valid with an empty clause => unsatisfiable; every sequence whose lines are all derivable by unit propagation (independent RUP checker, non-tautological lines) is accepted; the problem is deep-equal afterwards and a second check gives the same answer; subset is a sub-multiset and unsatisfiable, ErrNotUnsat for satisfiable problems. Non-trivial = the certificate has at least one clause line and the checker had to propagate (problem has a non-unit clause)."
+	return "cases = (CNF problem, certificate, entry point): problems from T2 (<=2 clauses, dirty clauses included) and S3 (<=3 clauses); certificates = every sequence of <=2 lines (3 thorough) over the clause alphabet of the problem's variables including the empty clause, plus comment and blank lines; every genuine solver certificate of the conflict-rich seeds and their neighbours, verbatim and with one literal dropped or flipped at every position; entry points Unsat(reader) and UnsatChan; UnsatSubset on the C07 inputs and on unit chains in front of a core that unit propagation cannot refute (every clause order). Oracle: valid => every line is implied (truth table), so valid with an empty clause => unsatisfiable; every sequence whose lines are all derivable by unit propagation (independent RUP checker, non-tautological lines) is accepted; the problem is deep-equal afterwards, a second check gives the same answer and an UnsatSubset call on the same value after the checks (and a second UnsatSubset call after a first) is still right; subset is a sub-multiset and unsatisfiable, ErrNotUnsat for satisfiable problems. Non-trivial = the certificate has at least one clause line and the checker had to propagate (problem has a non-unit clause)."
 }
 func (c08) Assumptions() []string {
 	return []string{"truth-table reference and the independent RUP checker are correct", "certificate lines mention declared variables only (an out-of-range variable in a certificate is outside the stated domain)", "completeness is required for non-tautological lines only"}
@@ -142,6 +142,43 @@ func (c08) Enumerate(tier string, seed int64, yield func(string, core.Case) bool
 	if !famCores(thorough, func(f [][]int, n int) bool { return sub("subset/cores", f, n) }) {
 		return
 	}
+	// unit chains in front of a core that unit propagation alone cannot refute: 1, -1 2, .., -(k-1) k, then
+	// the four clauses -k +-x +-y, in every clause order (k<=2) or every rotation (k=3): extraction on a
+	// fresh value, twice on the same value, and after certificate checks with the genuine trace
+	for k := 1; k <= 3; k++ {
+		var f [][]int
+		f = append(f, []int{1})
+		for i := 2; i <= k; i++ {
+			f = append(f, []int{-(i - 1), i})
+		}
+		x, y := k+1, k+2
+		f = append(f, []int{-k, x, y}, []int{-k, x, -y}, []int{-k, -x, y}, []int{-k, -x, -y})
+		var orders [][][]int
+		if k <= 2 {
+			permutations(len(f), func(p []int) bool {
+				o := make([][]int, len(f))
+				for i, j := range p {
+					o[i] = append([]int{}, f[j]...)
+				}
+				orders = append(orders, o)
+				return true
+			})
+		} else {
+			for rot := 0; rot < len(f); rot++ {
+				orders = append(orders, append(copyCNF(f[rot:]), copyCNF(f[:rot])...))
+			}
+		}
+		for oi, o := range orders {
+			if !sub("subset/unitchain", o, k+2) {
+				return
+			}
+			if oi%6 == 0 || thorough {
+				if lines, _ := genuineCert(o); len(lines) > 0 && !both("genuine/unitchain", o, k+2, lines, true) {
+					return
+				}
+			}
+		}
+	}
 	// genuine traces and their one-literal corruptions
 	famM(seed, tier, func(name string, f [][]int, n int) bool {
 		if n > 12 {
@@ -235,6 +272,23 @@ func (c08) Exec(cc core.Case, r *core.Rec) []core.Failure {
 			}
 			r.Outcome(fmt.Sprintf("subset/unsat/in=%d/out=%d", min3(len(c.F)), min3(len(res.Clauses))))
 			fs = append(fs, judgeSubset("UnsatSubset", c.F, c.N, res, false)...)
+			// "leaves the problem reusable with the same answer": a second extraction on the same value
+			if len(fs) == 0 {
+				var res2 *explain.Problem
+				var err2 error
+				pn, _ := guard(func() { res2, err2 = pb.UnsatSubset() })
+				r.Execution()
+				switch {
+				case pn != "":
+					add("second-call/panic@"+lastPanicSite, pn)
+				case err2 != nil:
+					add("second-call/error-on-unsatisfiable", err2.Error())
+				case res2 == nil:
+					add("second-call/nil-result", "nil result without error")
+				default:
+					fs = append(fs, judgeSubset("UnsatSubset/second-call", c.F, c.N, res2, false)...)
+				}
+			}
 		} else {
 			r.Outcome("subset/sat")
 			if err == nil {
@@ -323,6 +377,25 @@ func (c08) Exec(cc core.Case, r *core.Rec) []core.Failure {
 	}
 	if !valid && allRUP && !hasTaut {
 		add("rejected-rup-derivable", fmt.Sprintf("certificate %q rejected although every line is derivable by unit propagation", c.Lines))
+	}
+	// the problem stays reusable: an extraction after the checks must still be right
+	if len(fs) == 0 && models.IsEmpty() && len(c.F) > 0 {
+		var res *explain.Problem
+		var err3 error
+		pn, _ := guard(func() { res, err3 = pb.UnsatSubset() })
+		switch {
+		case pn != "":
+			add("subset-after-check/panic@"+lastPanicSite, pn)
+		case err3 != nil:
+			add("subset-after-check/error-on-unsatisfiable", err3.Error())
+		case res == nil:
+			add("subset-after-check/nil-result", "nil result without error")
+		default:
+			for _, f := range judgeSubset("UnsatSubset/after-check", c.F, c.N, res, false) {
+				f.Sig = pre + "/" + f.Sig
+				fs = append(fs, f)
+			}
+		}
 	}
 	r.Sample("certificate", 3, c)
 	return fs
